@@ -862,7 +862,11 @@ def gen_type(repo, file, name, opts, unit, em):
             em.raw("#[%s]\n" % o[5:])
     em.toks([gen(s2 + "\n\n")], file, src)
 
-DERIVED_FROM = {"C18": {"C15"}, "C16": {"C03"}}    # C16's "a later successful flush makes every update durable" rests on C03
+# A property whose contracts presuppose a fact that another property's functions establish takes those roots too, so that its check fails
+# when the supporting fact does: C18 ("... with extra read-only calls interleaved") rests on C15; C16's "a later successful flush makes
+# every update durable" rests on C03; the statistics (C17), the iterators (C04) and the frame proofs of the read-only calls (C15) are
+# stated for well-formed files (heap_ok / map_ok), which every update (the roots of C05: put_kt, del_kt and what they call) must preserve.
+DERIVED_FROM = {"C18": {"C15"}, "C16": {"C03"}, "C17": {"C05"}, "C04": {"C05"}, "C15": {"C05"}}
 
 def generate(repo, ov, prop=None, canary=False, only=None):
     """prop: property id -> functions serving it are verified, the others become stubs.
